@@ -7,7 +7,7 @@ import json, os, collections
 M = '/verif/mutation'
 stats = json.load(open(M + '/stats.json'))
 rows = {}
-for fn in ('pass1.tsv', 'pass2.tsv', 'pass3.tsv', 'pass4.tsv'):
+for fn in sorted(x for x in os.listdir(M) if x.startswith('pass') and x.endswith('.tsv')):
     p = os.path.join(M, fn)
     if not os.path.exists(p):
         continue
